@@ -334,7 +334,7 @@ def run_batch(case, ctx):
         for i, (op, X) in enumerate(calls):
             np.random.seed(rngtap.seed_for(case.get("seed_key", case["id"]), i))
             mark = tap.mark()
-            getattr(det, op)(X if (pin is not None and X is pin) else (X.astype(idt) if idt else (X.astype(np.float32) if (f32 and i > 0) else X.copy())))
+            getattr(det, op)(X if (pin is not None and X is pin) else (X.astype(idt) if idt else (X.astype(np.float32) if (f32 and i > 0 and op == "update") else X.copy())))
             ev = tap.since(mark)
             log.append([op, X.tolist() if X.size <= 200 else "omitted(%s)" % (X.shape,)])
             base = dict(params=kw, calls=log, step=i, dtype=idt, float32_tests=f32)
